@@ -59,4 +59,20 @@ func VerifComposite() {
 	}
 	// a condition that the trap-free run raises and that is trapped cannot go unreported
 	verifAssert(verifImplies(res0&c.Traps != 0, err != nil), "C03."+tag+".silent_trap")
+
+	// aliasing (C05): destination == first operand gives the same outcome as the distinct layout
+	var xa Decimal
+	xa.Set(x)
+	var resA Condition
+	var errA error
+	if op == "pow" {
+		_, resA, errA = verifApply(op, c, &xa, &xa, y, 0)
+	} else {
+		_, resA, errA = verifApply(op, c, &xa, &xa, &xa, 0)
+	}
+	verifAssert((errA != nil) == (err != nil), "C05."+tag+".alias_err")
+	verifAssert(resA == res, "C05."+tag+".alias_flags")
+	if err == nil && errA == nil {
+		verifAssert(verifSameObservable(&xa, &d), "C05."+tag+".alias_value")
+	}
 }
